@@ -468,7 +468,8 @@ class Interp:
     def in_(self, n, ns):
         opts = dict((o[0], o[1]) for o in n.get('opts', ()))
         for o in opts:
-            if o not in ('mapping', 'no_push_item', 'prefix'):
+            if o not in ('mapping', 'no_push_item', 'prefix', 'size',
+                         'start', 'end', 'orphan'):
                 raise Unspecified('in option %s' % o)
         ref = n['ref']
         seq = self.ref(ref, ns)
@@ -480,17 +481,18 @@ class Interp:
             if n.get('else') is not None:
                 return self.body(n['else'], ns)
             return ''
+        first, last = self.window(opts, len(seq))
         pushed = 0
         if ref['r'] == 'name':
             ns.push(('map', {ref['n']: seq}))
             pushed += 1
-        sv = SeqVars(seq, 0, len(seq) - 1, mapping='mapping' in opts,
+        sv = SeqVars(seq, first, last, mapping='mapping' in opts,
                      prefix=opts.get('prefix'))
         ns.push(('seq', sv))
         pushed += 1
         out = []
         try:
-            for i in range(len(seq)):
+            for i in range(first, last + 1):
                 sv.index = i
                 e = sv.element(i)
                 item_pushed = False
@@ -512,6 +514,42 @@ class Interp:
         finally:
             ns.pop(pushed)
         return ''.join(out)
+
+    @staticmethod
+    def window(opts, L):
+        """0-based first / last displayed index of a (batched) dtml-in over
+        L > 0 elements, for literal batch options, as C11 states it; the
+        combinations the statement leaves open are Unspecified."""
+        if not any(o in opts for o in ('size', 'start', 'end', 'orphan')):
+            return 0, L - 1
+        try:
+            start = int(opts.get('start') or 0)
+            end = int(opts.get('end') or 0)
+            size = int(opts.get('size') or 0)
+            orphan = int(opts['orphan'])
+        except (KeyError, ValueError, TypeError):
+            raise Unspecified('batch options without an explicit orphan')
+        if 'overlap' in opts or start < 0 or end < 0 or orphan < 0:
+            raise Unspecified('batch options')
+        if start > 0:
+            s = min(start, L)
+            if end > 0:
+                e = min(max(end, s), L)
+            else:
+                if size < 1:
+                    raise Unspecified('default batch size')
+                e = s + size - 1
+                if e > L or L - e < orphan:
+                    e = L
+            return s - 1, e - 1
+        if end > 0:
+            raise Unspecified('window given by its end only')
+        if size < 1:
+            raise Unspecified('default batch size')
+        e = size
+        if e > L or L - e < orphan:
+            e = L
+        return 0, e - 1
 
     def try_(self, n, ns):
         if n.get('finally') is not None:
